@@ -32,7 +32,9 @@ RULE = ("exhaustive: every grid shape w,h,d <= 3 (quick) / <= 5 (thorough) x all
         "cell, every ordered pair of cells, every linear index in [-size-2, 2*size+2], every coordinate triple in "
         "[-1,w]x[-1,h]x[-1,d] as tuple and as object (list / ndarray / numpy integer on a subset); one engine Euler step per "
         "cell; one kinetics derivative per cell and chunk; grid_to_graph of every grid; random systems for grid-vs-graph "
-        "trajectories / rate law.  A case is non-trivial when the grid has more than one cell; distinct by "
+        "trajectories / rate law; re-use: ONE grid object per shape taken through all 8 settings (twice) with "
+        "set_boundary_conditions; stochastic engines: Gillespie per-event moves (uniform state, 30 events per face) and tau-leap "
+        "one-hot steps on a 3-species network with D = 1, 0, 0.25.  A case is non-trivial when the grid has more than one cell; distinct by "
         "(shape, setting, kind, cell or pair)")
 ASSUMPTIONS = [
     "indices and sizes stay below 2^53 (Python computes y and z of get_cell_coordinates through float division) and below 2^31 (C++ int)",
@@ -527,6 +529,191 @@ def check_grid(ctx, eng, w, h, d, per, do_engine=True, do_kin=True, tag=""):
             "gcase": gcase}
 
 
+def check_reuse(ctx, w, h, d):
+    """ONE grid object taken through all 8 settings with set_boundary_conditions (twice, second pass in another order):
+    every query must follow the CURRENT setting (no stale state from earlier queries)"""
+    from strengths.coarsegrain import grid_to_graph
+    dims = (w, h, d)
+    n = w * h * d
+    cells = [spec_coords(w, h, d, i) for i in range(n)]
+    g = mk_grid(w, h, d, (False, False, False))
+    settings = list(itertools.product([False, True], repeat=3))
+    order = settings + [settings[k] for k in ctx.rng.sample(range(8), 8)]
+    prev = None
+    for step, per in enumerate(order):
+        full = step < 8      # second pass (other order): the neighbour query only
+        pkey = "".join("P" if p else "R" for p in per)
+        g.set_boundary_conditions(bc_dict(per))
+        case = grid_case(w, h, d, per, kind="reuse", previous=list(prev) if prev is not None else None)
+        ctx.case(("reuse", dims, per, prev), nontrivial=n > 1)
+        ctx.count("reuse_settings")
+        got_bc = g.get_boundary_conditions()
+        if got_bc != bc_dict(per):
+            ctx.violation("reuse:get_boundary_conditions", "after set_boundary_conditions(%s) the grid reports %r" % (pkey, got_bc), case,
+                          impl=got_bc, expected=bc_dict(per))
+        for i in range(n):
+            want = sorted(j for j in range(n) if spec_adjacent(dims, per, cells[i], cells[j]))
+            v, e = call(g.get_neighbors, i)
+            got = None if e is not None else sorted(set(int(x) for x in v) - {i})
+            if got != want:
+                ctx.violation("reuse:get_neighbors", "same %dx%dx%d grid object, setting changed %s -> %s with set_boundary_conditions: "
+                              "get_neighbors(%d) = %r, the neighbours under the current setting are %r"
+                              % (w, h, d, "".join("P" if p else "R" for p in prev) if prev is not None else "(fresh)", pkey, i, v if e is None else e, want),
+                              dict(case, i=i), impl=v if e is None else e, expected=want)
+                break
+            arow = [j for j in range(n) if j != i and call(g.are_neighbors, i, j)[0]] if full else want
+            if arow != want:
+                ctx.violation("reuse:are_neighbors", "same grid object after set_boundary_conditions(%s): are_neighbors(%d, .) holds for %r, expected %r"
+                              % (pkey, i, arow, want), dict(case, i=i), impl=arow, expected=want)
+                break
+        gr, eg = call(grid_to_graph, g) if full else (None, "skipped")
+        if eg is None:
+            mult = {}
+            for e in gr.edges:
+                k = (min(e.i, e.j), max(e.i, e.j))
+                mult[k] = mult.get(k, 0) + 1
+            want = {}
+            for i in range(n):
+                for j in range(i, n):
+                    f = spec_faces(dims, per, cells[i], cells[j])
+                    if i == j:
+                        f //= 2
+                    if f:
+                        want[(i, j)] = f
+            if mult != want:
+                ctx.violation("reuse:grid_to_graph", "same grid object after set_boundary_conditions(%s): grid_to_graph edges are not the face pairs" % pkey,
+                              case, impl=sorted(mult.items())[:12], expected=sorted(want.items())[:12])
+        prev = per
+
+
+# ------------------------------------------------------------------------------------------------
+# the neighbour relation as the STOCHASTIC engines use it (several species with different D)
+# ------------------------------------------------------------------------------------------------
+def stoch_net():
+    if "stoch" not in _NET:
+        from strengths import RDNetwork, Species
+        # A diffuses, B does not (D = 0), C diffuses more slowly: a wrong species / direction stride shows as a B that moves
+        # or as an A / C that cannot reach a neighbour
+        _NET["stoch"] = RDNetwork(species=[Species("A", D=1.0), Species("B", D=0.0), Species("C", D=0.25)], reactions=[])
+    return _NET["stoch"]
+
+
+def gillespie_events(eng, space, n, n_events, seed):
+    """per-event moves of a Gillespie run from a uniform state: list of (species, src, dst) (src == dst for a self hop)"""
+    import numpy as np
+    from strengths import RDSystem, RDScript
+    nsp = 3
+    s = RDSystem(stoch_net(), space, state=[40.0] * (nsp * n))
+    scr = RDScript(s, t_sample=[0], time_step=1e-3, sampling_policy="on_iteration", t_max=1e9, rng_seed=seed, init_state_processing="none")
+    eng.setup(scr)
+    try:
+        eng.iterate_n(n_events)
+        out = eng.get_output()
+    finally:
+        eng.finalize()
+    data = np.asarray(out.data.value).reshape(-1, nsp, n)
+    moves, bad = [], []
+    for k in range(1, data.shape[0]):
+        dlt = data[k] - data[k - 1]
+        nz = np.argwhere(dlt != 0)
+        if len(nz) == 0:
+            moves.append((None, None, None))
+            continue
+        if len(nz) != 2 or nz[0][0] != nz[1][0] or sorted(dlt[tuple(x)] for x in nz) != [-1.0, 1.0]:
+            bad.append((k, [(int(a), int(b), float(dlt[a, b])) for a, b in nz][:6]))
+            continue
+        sp = int(nz[0][0])
+        src = int(nz[0][1]) if dlt[tuple(nz[0])] < 0 else int(nz[1][1])
+        dst = int(nz[1][1]) if dlt[tuple(nz[0])] < 0 else int(nz[0][1])
+        moves.append((sp, src, dst))
+    return moves, bad, data.shape[0] - 1
+
+
+def tauleap_onehot(eng, space, n, hotA, hotC, seed):
+    """state after ONE tau-leap step: A (D=1) and B (D=0) start in cell hotA, C (D=0.25) in cell hotC"""
+    import numpy as np
+    from strengths import RDSystem, RDScript
+    nsp = 3
+    st = np.zeros((nsp, n))
+    st[0, hotA] = 4096.0
+    st[1, hotA] = 4096.0
+    st[2, hotC] = 16384.0
+    s = RDSystem(stoch_net(), space, state=list(st.reshape(-1)))
+    dt = 2.0 ** -6
+    scr = RDScript(s, t_sample=[0], time_step=dt, sampling_policy="on_iteration", t_max=dt, rng_seed=seed, init_state_processing="none")
+    eng.setup(scr)
+    try:
+        eng.iterate()
+        out = eng.get_output()
+    finally:
+        eng.finalize()
+    return np.asarray(out.data.value).reshape(-1, nsp, n)[-1], st
+
+
+def check_stochastic(ctx, engs, w, h, d, per, hots, do_gillespie=True):
+    """the face-neighbour relation as tau-leap and Gillespie use it, for a network of three species with D = 1, 0, 0.25"""
+    dims = (w, h, d)
+    n = w * h * d
+    cells = [spec_coords(w, h, d, i) for i in range(n)]
+    pkey = "".join("P" if p else "R" for p in per)
+    g = mk_grid(w, h, d, per)
+    seed = 1 + (ctx.seed * 7919 + w * 131 + h * 17 + d * 5 + sum(per)) % 100000
+    adj = {(i, j) for i in range(n) for j in range(n) if i != j and spec_adjacent(dims, per, cells[i], cells[j])}
+    names = "ABC"
+    # ---- Gillespie: every single event is one molecule of a diffusing species crossing one face
+    n_ev = 30 * max(1, len(adj)) + 60     # P(a given face is never crossed) ~ exp(-24)
+    moves, bad, done = gillespie_events(engs["gillespie"], g, n, n_ev, seed) if do_gillespie else ([], [], 0)
+    gcase = grid_case(w, h, d, per, kind="gillespie", seed=seed, events=n_ev)
+    if do_gillespie:
+        ctx.case(("gil", dims, per), nontrivial=n > 1)
+        ctx.count("gillespie_grids")
+    ctx.count("gillespie_events", done)
+    if bad:
+        ctx.violation("gillespie-event-shape", "a Gillespie event of a pure-diffusion system is not one molecule moving between two cells: %r" % (bad[:2],),
+                      gcase, impl=bad[:3], expected="-1 in one cell, +1 in another, same species")
+    seen = set()
+    for sp, a, b in moves:
+        if sp is None:
+            continue
+        if sp == 1:
+            ctx.violation("stochastic-nbr:D0-moves", "Gillespie on %dx%dx%d %s: species B (D = 0) moved from cell %d to %d" % (w, h, d, pkey, a, b),
+                          gcase, impl=[names[sp], a, b], expected="B never moves")
+            break
+        if (a, b) not in adj:
+            ctx.violation("stochastic-nbr:gillespie", "Gillespie on %dx%dx%d %s: a molecule of %s hopped from cell %d to cell %d, which are not face neighbours"
+                          % (w, h, d, pkey, names[sp], a, b), gcase, impl=[names[sp], a, b], expected=sorted(j for (i, j) in adj if i == a))
+            break
+        if sp == 0:
+            seen.add((a, b))
+    else:
+        if do_gillespie and adj and done >= n_ev and seen != adj:
+            miss = sorted(adj - seen)[:6]
+            ctx.violation("stochastic-nbr:gillespie-unreached", "Gillespie on %dx%dx%d %s: in %d events species A (D = 1, 40 molecules per cell) never "
+                          "crossed the faces %r" % (w, h, d, pkey, done, miss), gcase, impl=sorted(seen)[:20], expected=sorted(adj)[:20])
+        elif not adj and any(m[0] is not None for m in moves):
+            pass
+    # ---- tau-leap: one step from one-hot states
+    for hot in hots:
+        hotC = (hot + 1) % n
+        last, st0 = tauleap_onehot(engs["tauleap"], g, n, hot, hotC, seed + hot)
+        tcase = grid_case(w, h, d, per, kind="tauleap", seed=seed + hot, hot=hot, hotC=hotC)
+        ctx.case(("tau", dims, per, hot), nontrivial=n > 1)
+        ctx.count("tauleap_steps")
+        for sp, src in ((0, hot), (2, hotC)):
+            got = sorted(j for j in range(n) if j != src and last[sp, j] != 0)
+            want = sorted(j for j in range(n) if (src, j) in adj)
+            if got != want:
+                ctx.violation("stochastic-nbr:tauleap", "tau-leap on %dx%dx%d %s: after one step species %s started in cell %d is found in cells %r, "
+                              "its face neighbours are %r" % (w, h, d, pkey, names[sp], src, got, want), tcase,
+                              impl=[float(v) for v in last[sp]], expected=want)
+            if abs(float(last[sp].sum()) - float(st0[sp].sum())) > 1e-9:
+                ctx.violation("stochastic-nbr:tauleap-mass", "tau-leap diffusion step changed the total of species %s" % names[sp], tcase,
+                              impl=float(last[sp].sum()), expected=float(st0[sp].sum()))
+        if any(last[1, j] != st0[1, j] for j in range(n)):
+            ctx.violation("stochastic-nbr:D0-moves", "tau-leap on %dx%dx%d %s: species B (D = 0) moved: %r" % (w, h, d, pkey, [float(v) for v in last[1]]),
+                          tcase, impl=[float(v) for v in last[1]], expected=[float(v) for v in st0[1]])
+
+
 def compare_grid(ctx, rec, res):
     """correspondence: model answers `res` (one per op of rec['ops']) vs the recorded real results"""
     if res is None or any(r is None for r in res):
@@ -747,17 +934,23 @@ def run(ctx, maxn=None, batch=120):
             k += m
         del recs[:]
 
-    # the Python kinetics derivative costs ~6 ms per cell: observed for all 8 settings on grids up to `full` cells, for
+    # the Python kinetics derivative costs ~6 ms per cell: observed for all 8 settings on grids up to `full` cells (quick: 8), for
     # 2 of the 8 settings (chosen per shape from the seed) up to `part` cells, for 1 beyond
-    full, part = ctx.n(9, 27), ctx.n(27, 64)
+    full, part = ctx.n(8, 27), ctx.n(27, 64)
     pick = {}
+    engs = {"gillespie": common.load_engine("gillespie"), "tauleap": common.load_engine("tauleap")}
     for w, h, d, per in all_grids(maxn):
         n = w * h * d
         if (w, h, d) not in pick:
+            check_reuse(ctx, w, h, d)
             k = 8 if n <= full else (2 if n <= part else 1)
             pick[(w, h, d)] = set(ctx.rng.sample(range(8), k))
         pidx = per[0] * 4 + per[1] * 2 + per[2]
         recs.append(check_grid(ctx, eng, w, h, d, per, do_kin=(pidx in pick[(w, h, d)])))
+        if n <= 27:
+            # Gillespie event tracking costs ~ cells x faces: all 8 settings on the small grids, the seed-chosen ones beyond
+            check_stochastic(ctx, engs, w, h, d, per, hots=sorted({0, (w + 2 * h + 3 * d + pidx) % n}),
+                             do_gillespie=(pidx in pick[(w, h, d)]))
         if len(recs) >= batch:
             flush()
     flush()
@@ -835,9 +1028,17 @@ def replay(ctx, rec):
         ok, detail = eval_grid_vs_graph(eng, case["desc"], case.get("kinetics", False))
         return ok, {"case": case, "result": detail}
     sink = _Sink(ctx)
-    eng = common.load_engine("euler")
+    sink.seed = ctx.seed
     w, h, d, per = case["w"], case["h"], case["d"], tuple(case["periodic"])
-    check_grid(sink, eng, w, h, d, per, do_kin=(w * h * d <= 30))
+    if case.get("kind") == "reuse":
+        for _ in range(3):
+            check_reuse(sink, w, h, d)
+    elif case.get("kind") in ("gillespie", "tauleap"):
+        engs = {"gillespie": common.load_engine("gillespie"), "tauleap": common.load_engine("tauleap")}
+        check_stochastic(sink, engs, w, h, d, per, hots=list(range(w * h * d)))
+    else:
+        eng = common.load_engine("euler")
+        check_grid(sink, eng, w, h, d, per, do_kin=(w * h * d <= 30))
     key = rec.get("key")
     same = [v for v in sink.violations if key is None or v["key"] == key]
     return not same, {"case": case, "failures_on_this_grid": [{"key": v["key"], "what": v["what"], "case": v["case"]} for v in (same or sink.violations)[:5]]}
